@@ -330,6 +330,9 @@ type CleanPlan struct {
 	FreeFiles map[string]bool
 	FreeTests map[string]bool // file+"\x00"+id
 	Dirs      map[string]bool // visited directories
+	// WildIDs: an addressed file was damaged by a storage fault; it may hold any id at
+	// all, so nothing is demanded about which ids Clean lists (files are still compared).
+	WildIDs bool
 }
 
 func skipProtected(test string, skipped []string) bool {
@@ -504,6 +507,9 @@ type dirtyInfo struct {
 
 // MaybeDirtyElsewhere: the id may belong to an unpredicted addressed file other than file.
 func (p *CleanPlan) MaybeDirtyElsewhere(id, file string) bool {
+	if p.WildIDs {
+		return true
+	}
 	test := id
 	if i := strings.LastIndex(id, " - "); i >= 0 {
 		test = id[:i]
@@ -521,6 +527,9 @@ func (p *CleanPlan) MaybeDirtyElsewhere(id, file string) bool {
 
 // MaybeDirty: the id may belong to an addressed file the model no longer predicts.
 func (p *CleanPlan) MaybeDirty(id string) bool {
+	if p.WildIDs {
+		return true
+	}
 	if !p.DirtyAddressed {
 		return false
 	}
